@@ -30,6 +30,7 @@ func runC01(p *core.Prog, r *core.Result) {
 		"R1.14 where the consumer of a source's content sum reads a 'does not exist' error as 'the source is missing' (empty sum), the directory hashing function never hands up such an error from one of its entries: every return of an entry's error is on the edge where os.IsNotExist / errors.Is(…, fs.ErrNotExist) is false - otherwise one dangling symbolic link makes the whole directory hash to the empty sum and no later edit in it is ever seen",
 		"R1.16 the sum of a source directory covers the contents of every entry: whether an entry's contents are hashed does not depend on the kind the directory listing reports for it (fs.DirEntry.Type / IsDir / Info, os.Lstat do not follow symbolic links, so a kind test on them covers every link by its name alone: an edit behind a link or a re-pointed link leaves the sum unchanged)",
 		"R1.17 an input that is taken away is a change too: Evaluate walks the dependencies the last execution recorded (targetInfo.Dependencies) and marks the dependencies out of date where one of them is not among the current ones - the function is handed its sources and dependencies, so after an entry is removed from sources=[...] (or a file glob() matched is deleted) the outputs would otherwise stay computed from the removed input",
+		"R1.18 the code and values a function references are captured when they are final: the environment of a target function is not computed by code that runs while modules are executing (loadFunction, (*function).load, the builtins of build files such as target()) - a helper or constant defined below the target, or a list appended to after it, would be missing from both the compared and the recorded environment, so an edit to it is never noticed (C02's R2.5, extended to the builtins)",
 		"R1.15 the code and values one function references are recorded for that function alone: every argument the host pickler builds for a value is computed from that value only (no captured or package-level table in its data flow) - an object shared between two closures is written once and completed in place by the unpickler, so the captured values of all but the last closure of a def vanish from the recorded environment and an edit to them is never seen (shared with C08 R8.6)",
 		"R1.8 loading a target writes back the record read with every field but the documentation unchanged (type-driven, field by field): a failed target's pending re-run survives any number of loads that do not run it",
 	}
@@ -393,6 +394,7 @@ func runC01(p *core.Prog, r *core.Result) {
 	checkDirEntryErrors(p, r, "R1.14")
 	checkEntriesHashedWhateverTheirKind(p, r, "R1.16")
 	checkRemovedDependenciesSeen(p, r, "R1.17")
+	checkEnvNotDuringLoad(p, r, "R1.18", "both the compared and the recorded environment then lack what is defined below the target, so an edit to it is never noticed and the outputs stay stale")
 
 	// ---- R1.12 every load builds its own target objects
 	checkTargetsFreshPerLoad(p, r, "R1.12")
